@@ -533,7 +533,10 @@ pub fn zoo() -> Vec<Entry> {
 	add!(v; enc: RefOf<u32>, RefOf<Vec<u8>>, RefOf<String>, RefRefOf<u64>, RefRefOf<(u8, String)>, MutRefOf<u16>, MutRefOf<Vec<u32>>,
 		CowBorrowedOf<u32>, CowBorrowedOf<Vec<u8>>, RefWrapperOf<u32>, RefWrapperOf<Vec<u16>>,
 		SliceOf<u8>, SliceOf<u32>, SliceOf<i64>, SliceOf<String>, SliceOf<(u8, u16)>, SliceOf<()>, CowSliceOf<u16>, CowSliceOf<String>,
-		StrOf, CowStrOf);
+		StrOf, CowStrOf,
+		Box<[u8]>, Box<[u32]>, Rc<[u16]>, Arc<[u64]>, Box<[String]>, Rc<[(u8, u16)]>, Arc<[()]>, Box<[Box<u32>]>, Box<str>, Rc<str>, Arc<str>,
+		Vec<Box<[u16]>>, (Box<str>, Arc<[u8]>), Option<Rc<[u32]>>,
+		SliceOf<Box<u32>>, SliceOf<Rc<u16>>, Vec<RefOf<u32>>, Vec<RefOf<u8>>, [RefOf<u64>; 3], VecDeque<Arc<u16>>, Vec<CowBorrowedOf<u32>>, Vec<RefWrapperOf<u64>>, SliceOf<RefOf<f64>>);
 
 	#[cfg(feature = "bit-vec")]
 	{
@@ -568,6 +571,7 @@ pub fn zoo() -> Vec<Entry> {
 			BTreeMap<Simple, Indexed>, (Simple, WithCompact, Discr), Box<TransparentBox>, Vec<UnitS>,
 			TransparentCompact, Box<TransparentCompact>, [TransparentCompact; 3], Rc<TransparentEncodedAs>, [TransparentEncodedAs; 2],
 			Box<SingleCompact>, [WithCompact; 2], Arc<Arc<Arc<u32>>>, Rc<Rc<u8>>, Vec<Arc<Vec<Arc<u16>>>>, Option<Arc<ArcChain>>, Box<DataFixed>, [Data; 2], Arc<Nested>, Box<TupEnum>,
+			Amount, Balance, Vec<Amount>, [Balance; 2],
 			Marker, MarkerPair, [Marker; 4], Box<[Marker; 4]>, ([Marker; 2], u16), Vec<Marker>, [[Marker; 2]; 2], [MarkerPair; 3],
 			Rc<[Marker; 3]>, Option<[Marker; 1]>, (Arc<[MarkerPair; 2]>, Vec<u8>), Vec<[Marker; 2]>,
 			(Box<UnitS>, Vec<Vec<u8>>), [Box<AllSkip>; 3]);
@@ -594,6 +598,7 @@ pub fn zoo() -> Vec<Entry> {
 			mark!(v; mel: UnitS, WithSkip, WithCompact, WithEncodedAs, SingleCompact, SingleCompact16, AllSkip, Simple, Indexed,
 				Discr, DataFixed, TransparentArr, TransparentZst, CWrap, Option<Simple>, Box<TransparentArr>, [TransparentZst; 2],
 				TransparentCompact, Box<TransparentCompact>, [TransparentCompact; 3], [TransparentEncodedAs; 2], Compact<CWrap>,
+				Amount, Balance, [Balance; 2],
 				Marker, MarkerPair, [Marker; 4], Box<[Marker; 4]>, ([Marker; 2], u16), [[Marker; 2]; 2], [MarkerPair; 3], Option<[Marker; 1]>,
 				(Simple, WithCompact, Discr));
 		}
